@@ -368,9 +368,14 @@ def run_case(case, timed):
         except Exception as e:
             o["err"] = type(e).__name__
             raise
-        o["modified"] = sorted(str(x) for x in modified)
-        o["after"] = [L.snap_glyphset(gs) for gs in pre.glyphSets]
-        o["refreshed"] = None if inst is None else SENTINEL not in inst.glyph_mutators
+        try:
+            o["modified"] = sorted(str(x) for x in modified)
+            o["after"] = [L.snap_glyphset(gs) for gs in pre.glyphSets]
+            o["refreshed"] = None if inst is None else SENTINEL not in inst.glyph_mutators
+        except Exception as e:
+            # the time budget of the harness (SIGALRM) can run out while the step is being snapshotted
+            o["err"] = type(e).__name__
+            raise
         return modified
 
     pre._run = spy
